@@ -81,7 +81,11 @@ class BuiltinMixin:
         vals = [self.eval(x, st) for x in e.elts]
         if not vals:
             return self.new_list(None, st)
-        ety = self.join_types([v.ty for v in vals])
+        try:
+            ety = self.join_types([v.ty for v in vals])
+        except Unsupported:
+            # a literal list of values of different types (SQL parameter lists): kept as a static sequence
+            return Val(TupleT([v.ty for v in vals]), vals, was_list=True)
         arr = z3.K(I, to_sort_term(vals[0], ety))
         for i, v in enumerate(vals):
             arr = z3.Store(arr, i, to_sort_term(v, ety))
@@ -438,6 +442,15 @@ class BuiltinMixin:
                 if aware is False:
                     return NONE_VAL
                 return Val(OptT(ANYREF), z3.If(aware, 1, 0))
+        if ty == TD:
+            # days / seconds / microseconds: the normalised components (0 <= seconds < 86400, 0 <= microseconds < 10**6)
+            day = 86400 * US
+            if attr == "days":
+                return Val(INT, v.t / day)
+            if attr == "seconds":
+                return Val(INT, (v.t % day) / US)
+            if attr == "microseconds":
+                return Val(INT, v.t % US)
         if ty == FN and v.t[0] == "ext":
             return None
         return None
@@ -794,12 +807,21 @@ class BuiltinMixin:
                 raise Unsupported(f"timedelta({nme}={v.ty})")
         return Val(TD, z3.simplify(total) if z3.is_int_value(z3.simplify(total)) else total)
 
+    def x_bi_clock_now(self, args, kw, st, node):
+        """Specification: the current reading of the (monotone) clock - a lower bound of every later now()."""
+        clock = st.ghost.get("g:clock")
+        if clock is None:
+            clock = z3.Const("clock0", I)
+        return Val(DT, clock)
+
     def x_datetime_datetime_now(self, args, kw, st, node):
         self.used_assumptions.add("A-CLOCK")
         clock = st.ghost.get("g:clock")
+        if clock is None:
+            clock = z3.Const("clock0", I)
         t = fresh("now", I)
-        if clock is not None:
-            st.assume(t >= clock)
+        st.assume(t >= clock)
+        st.ghost = dict(st.ghost)
         st.ghost["g:clock"] = t
         return Val(DT, t)
 
@@ -1008,6 +1030,10 @@ class BuiltinMixin:
         if ty == NONE:
             st.raise_if(z3.BoolVal(True), "AttributeError", line)
             return NONE_VAL
+        if ty.name == "Obj" and ty.args[0].startswith("sqlite3."):
+            r = self.sqlite_method(recv, name, args, kw, st, node)
+            if r is not None:
+                return r
         m = getattr(self, f"m_{ty.name}_{name}", None)
         if m is None and ty.name == "Obj":
             fty = None
@@ -1186,7 +1212,8 @@ class BuiltinMixin:
             st.env = s_env
 
     def m_timedelta_total_seconds(self, recv, args, kw, st, node):
-        return Val(FLOAT, z3.ToReal(recv.t) / US, exact_us=recv.t)
+        f = z3.Function("td_total_seconds", I, R)             # the float number of seconds of a timedelta
+        return Val(FLOAT, f(recv.t), exact_us=recv.t)
 
     def m_datetime_astimezone(self, recv, args, kw, st, node):
         x = dict(recv.x)
@@ -1272,10 +1299,43 @@ class BuiltinMixin:
         return mk_str(name)
 
     def x_json_dumps(self, args, kw, st, node):
-        return Val(STR, fresh("json", S), json_of=args[0])
+        """json.dumps: an uninterpreted function of the value (for dicts: of the key/value map).  A-JSON."""
+        v = args[0]
+        self.used_assumptions.add("A-JSON")
+        if v.ty.name == "Dict":
+            m = self.dict_map(v, st)
+            f = z3.Function("json_dumps_map", m.sort(), S)
+            return Val(STR, f(m))
+        if v.ty.name == "Opt" and v.ty.args[0].name == "Dict":
+            inner = self._inner(v)
+            m = self.dict_map(inner, st)
+            f = z3.Function("json_dumps_map", m.sort(), S)
+            return Val(STR, z3.If(self.is_none(v, st), z3.StringVal("null"), f(m)))
+        return Val(STR, fresh("json", S), json_of=v)
+
+    def x_json_loads(self, args, kw, st, node):
+        """json.loads of a text: a fresh dict whose map is json_loads_map(text); loads(dumps(m)) == m (A-JSON)."""
+        s_ = self.as_str(args[0], st, getattr(node, "lineno", None))
+        self.used_assumptions.add("A-JSON")
+        msort = z3.ArraySort(S, opt(JVSort).sort)
+        f = z3.Function("json_loads_map", S, msort)
+        g = z3.Function("json_dumps_map", msort, S)
+        if "A-JSON" not in getattr(self, "_global_axioms", set()):
+            if not hasattr(self, "_global_axioms"):
+                self._global_axioms = set()
+            self._global_axioms.add("A-JSON")
+            mm = z3.Const("m!js", msort)
+            self.axioms.append(z3.ForAll([mm], f(g(mm)) == mm, patterns=[g(mm)]))
+        return self.new_dict(JV, st, f(s_.t))
 
     def m_datetime_timestamp(self, recv, args, kw, st, node):
-        return Val(FLOAT, z3.ToReal(recv.t) / US, ts_of=recv.t)
+        f = z3.Function("dt_timestamp", I, R)                 # the float POSIX timestamp of an instant
+        return Val(FLOAT, f(recv.t), ts_of=recv.t)
+
+    def x_datetime_datetime_fromtimestamp(self, args, kw, st, node):
+        v = args[0]
+        f = z3.Function("dt_fromtimestamp", R, I)             # the instant of a float POSIX timestamp
+        return Val(DT, f(to_sort_term(v, FLOAT)))
 
 
 def _neg_const(t):
